@@ -278,6 +278,93 @@ def run_line(inp):
                 del lp.__dict__["open"]
 
 
+def run_history(inp):
+    """one manager lifetime: the lines of inp["lines"] through the real _RequestHandler one after the other, on
+    one protocol object and one simulated device, until the handler asks for a shutdown"""
+    from comm.platform import Platform
+    from comm.server import _RequestHandler, RequestHandlerError, RequestHandlerShutdown
+    from ledger.protocol import HSM2ProtocolLedger
+    from ledger.protocol_v1 import HSM1ProtocolLedger
+    plat = inp.get("platform", "ledger")
+    Platform.set({"ledger": Platform.LEDGER, "sgx": Platform.SGX, "tcp": Platform.X86}[plat])
+    simdev.install()
+    devspec = dict(inp["dev"])
+    devspec["sgx"] = plat == "sgx"
+    dev = build_device(devspec)
+    simdev.reset([], inp.get("conns", []), dev.exchange)
+    dongle = simdev.connected_dongle(plat)
+    pin, pindir = None, None
+    if inp.get("pin") is not None:
+        pin, pindir = make_pin(inp["pin"], inp.get("gen_pins", []), inp.get("fs_ok", []))
+    try:
+        v1 = inp.get("mode", "v5") == "v1"
+        proto = (HSM1ProtocolLedger if v1 else HSM2ProtocolLedger)(pin, dongle)
+        p2 = proto.protocol_v2 if v1 else proto
+        escaped = []
+        orig = proto.handle_request
+
+        def spy(req):
+            try:
+                return orig(req)
+            except BaseException as e:
+                escaped.append(type(e).__name__)
+                raise
+        proto.handle_request = spy
+        out_lines, mlines = [], []
+        keccak, cbhash, too_deep = {}, {}, []
+        for line in inp["lines"]:
+            raw = (json.dumps(line["request"]).encode("utf-8") + b"\n") if line["kind"] == "json" \
+                else bytes.fromhex(line["hex"])
+            kind, request = classify_line(raw)
+            del escaped[:]
+            w = io.BytesIO()
+            shutdown, outer = False, ""
+            try:
+                _RequestHandler(proto, logging.getLogger("verif")).handle("client", io.BytesIO(raw), w)
+            except (RequestHandlerError, RequestHandlerShutdown):
+                shutdown = True
+            except BaseException as e:
+                outer = type(e).__name__
+            ob = w.getvalue().split(b"\n")
+            if len(ob) == 2 and ob[1] == b"":
+                try:
+                    reply = json.loads(ob[0].decode("utf-8"))
+                except Exception:
+                    reply = {"__unparsable__": ob[0].hex()}
+            else:
+                reply = {"__lines__": len(ob) - 1}
+            exc = escaped[0] if escaped else ""
+            if exc and exc not in EXC_NAMES:
+                exc = "UNMAPPED:" + exc
+            if outer:
+                exc = "OUTER:" + outer
+            out_lines.append({"reply": reply, "shutdown": shutdown, "exc": exc})
+            ml = {"parsed": kind}
+            if kind == "ok":
+                ml["request"] = request
+            mlines.append(ml)
+            k2, c2 = hash_tables(request, inp.get("full_coinbases"))
+            keccak.update(k2), cbhash.update(c2)
+            too_deep += list(hash_tables.too_deep)
+            if shutdown:
+                break
+        out = {"lines": out_lines, "events": list(simdev.CTX.events), "comm_issue": bool(p2._comm_issue)}
+        minp = {"mode": inp.get("mode", "v5"), "platform": plat, "lines": mlines,
+                "script": [simdev.norm_entry(e) for e in simdev.CTX.recorded], "conns": list(inp.get("conns", [])),
+                "comm_issue": False, "keccak": keccak, "cbhash": cbhash, "rlp_too_deep": too_deep}
+        if inp.get("pin") is not None:
+            minp["pin"] = inp["pin"]
+            minp["gen_pins"] = inp.get("gen_pins", [])
+            minp["fs_ok"] = inp.get("fs_ok", [])
+        return {"__model_input__": minp, "out": out}
+    finally:
+        if pindir:
+            shutil.rmtree(pindir, ignore_errors=True)
+            import ledger.pin as lp
+            if "open" in lp.__dict__:
+                del lp.__dict__["open"]
+
+
 class _FakeTCPServer:
     """stands for socketserver.TCPServer: reaching serve_forever is the observation 'served'"""
     allow_reuse_address = True
